@@ -125,7 +125,7 @@ def _build_bv(tu, unit, workdir, contract_override=None):
         fh.write(src)
     # only callees the extracted bodies really call are replaced (goto-instrument rejects unknown names);
     # a contract for a callee that the current working tree does not call is simply unused
-    return cfile, wname, [tu.func(q).cname for q in unit.replace if tu.func(q).cname in em.called], em
+    return cfile, wname, [tu.func(q).cname for q in unit.replace if tu.func(q).cname in em.called] + list(getattr(unit, "extra_replace", [])), em
 
 
 def _is_called(src, cname):
